@@ -352,6 +352,74 @@ theorem branch3_so3 (a : Nat → Nat → K) (h : SO3Rel a) (h2 : (2 : K) ≠ 0) 
   · have e := prod_div (a 2 1 - a 1 2) (a 2 0 + a 0 2) (a 1 0 - a 0 1) r h0 h2 (by rw [hr]; exact minor1_03 a h)
     linear_combination e
 
+/-- branch 0 on a proper rotation matrix returns a UNIT quaternion (the four radicands sum to 4) -/
+theorem branch0_unit (a : Nat → Nat → K) (h : SO3Rel a) (h2 : (2 : K) ≠ 0) (r : K)
+    (hr : r * r = Gen.M4.rotRadicand0 (fld K) a) (h0 : r ≠ 0) :
+    UnitQuat (Gen.M4.rotBranch0 (fld K) a r) := by
+  simp only [Gen.M4.rotRadicand0, fld_add, fld_sub, fld_lit, Nat.cast_one] at hr
+  have h4 : (4 : K) ≠ 0 := by
+    have : (4 : K) = 2 * 2 := by norm_num
+    rw [this]; exact mul_ne_zero h2 h2
+  unfold UnitQuat
+  simp only [Gen.M4.rotBranch0, fld_add, fld_sub, fld_mul, fld_div, fld_half]
+  apply mul_left_cancel₀ h4
+  have e0 := prod_sq r h2
+  have e1 := prod_div (a 2 1 - a 1 2) (a 2 1 - a 1 2) (1 + a 0 0 - a 1 1 - a 2 2) r h0 h2 (by rw [hr]; exact minor0_11 a h)
+  have e2 := prod_div (a 0 2 - a 2 0) (a 0 2 - a 2 0) (1 + a 1 1 - a 2 2 - a 0 0) r h0 h2 (by rw [hr]; exact minor0_22 a h)
+  have e3 := prod_div (a 1 0 - a 0 1) (a 1 0 - a 0 1) (1 + a 2 2 - a 0 0 - a 1 1) r h0 h2 (by rw [hr]; exact minor0_33 a h)
+  linear_combination e0 + e1 + e2 + e3 + hr
+
+/-- branch 1 on a proper rotation matrix returns a UNIT quaternion (the four radicands sum to 4) -/
+theorem branch1_unit (a : Nat → Nat → K) (h : SO3Rel a) (h2 : (2 : K) ≠ 0) (r : K)
+    (hr : r * r = Gen.M4.rotRadicand1 (fld K) a) (h0 : r ≠ 0) :
+    UnitQuat (Gen.M4.rotBranch1 (fld K) a r) := by
+  simp only [Gen.M4.rotRadicand1, fld_add, fld_sub, fld_lit, Nat.cast_one] at hr
+  have h4 : (4 : K) ≠ 0 := by
+    have : (4 : K) = 2 * 2 := by norm_num
+    rw [this]; exact mul_ne_zero h2 h2
+  unfold UnitQuat
+  simp only [Gen.M4.rotBranch1, fld_add, fld_sub, fld_mul, fld_div, fld_half]
+  apply mul_left_cancel₀ h4
+  have e0 := prod_div (a 0 2 - a 2 0) (a 0 2 - a 2 0) (1 + (a 0 0 + a 1 1 + a 2 2)) r h0 h2 (by rw [hr]; exact minor2_00 a h)
+  have e1 := prod_div (a 0 1 + a 1 0) (a 0 1 + a 1 0) (1 + a 0 0 - a 1 1 - a 2 2) r h0 h2 (by rw [hr]; exact minor2_11 a h)
+  have e2 := prod_sq r h2
+  have e3 := prod_div (a 1 2 + a 2 1) (a 1 2 + a 2 1) (1 + a 2 2 - a 0 0 - a 1 1) r h0 h2 (by rw [hr]; exact minor2_33 a h)
+  linear_combination e0 + e1 + e2 + e3 + hr
+
+/-- branch 2 on a proper rotation matrix returns a UNIT quaternion (the four radicands sum to 4) -/
+theorem branch2_unit (a : Nat → Nat → K) (h : SO3Rel a) (h2 : (2 : K) ≠ 0) (r : K)
+    (hr : r * r = Gen.M4.rotRadicand2 (fld K) a) (h0 : r ≠ 0) :
+    UnitQuat (Gen.M4.rotBranch2 (fld K) a r) := by
+  simp only [Gen.M4.rotRadicand2, fld_add, fld_sub, fld_lit, Nat.cast_one] at hr
+  have h4 : (4 : K) ≠ 0 := by
+    have : (4 : K) = 2 * 2 := by norm_num
+    rw [this]; exact mul_ne_zero h2 h2
+  unfold UnitQuat
+  simp only [Gen.M4.rotBranch2, fld_add, fld_sub, fld_mul, fld_div, fld_half]
+  apply mul_left_cancel₀ h4
+  have e0 := prod_div (a 1 0 - a 0 1) (a 1 0 - a 0 1) (1 + (a 0 0 + a 1 1 + a 2 2)) r h0 h2 (by rw [hr]; exact minor3_00 a h)
+  have e1 := prod_div (a 2 0 + a 0 2) (a 2 0 + a 0 2) (1 + a 0 0 - a 1 1 - a 2 2) r h0 h2 (by rw [hr]; exact minor3_11 a h)
+  have e2 := prod_div (a 1 2 + a 2 1) (a 1 2 + a 2 1) (1 + a 1 1 - a 2 2 - a 0 0) r h0 h2 (by rw [hr]; exact minor3_22 a h)
+  have e3 := prod_sq r h2
+  linear_combination e0 + e1 + e2 + e3 + hr
+
+/-- branch 3 on a proper rotation matrix returns a UNIT quaternion (the four radicands sum to 4) -/
+theorem branch3_unit (a : Nat → Nat → K) (h : SO3Rel a) (h2 : (2 : K) ≠ 0) (r : K)
+    (hr : r * r = Gen.M4.rotRadicand3 (fld K) a) (h0 : r ≠ 0) :
+    UnitQuat (Gen.M4.rotBranch3 (fld K) a r) := by
+  simp only [Gen.M4.rotRadicand3, fld_add, fld_sub, fld_lit, Nat.cast_one] at hr
+  have h4 : (4 : K) ≠ 0 := by
+    have : (4 : K) = 2 * 2 := by norm_num
+    rw [this]; exact mul_ne_zero h2 h2
+  unfold UnitQuat
+  simp only [Gen.M4.rotBranch3, fld_add, fld_sub, fld_mul, fld_div, fld_half]
+  apply mul_left_cancel₀ h4
+  have e0 := prod_div (a 2 1 - a 1 2) (a 2 1 - a 1 2) (1 + (a 0 0 + a 1 1 + a 2 2)) r h0 h2 (by rw [hr]; exact minor1_00 a h)
+  have e1 := prod_sq r h2
+  have e2 := prod_div (a 0 1 + a 1 0) (a 0 1 + a 1 0) (1 + a 1 1 - a 2 2 - a 0 0) r h0 h2 (by rw [hr]; exact minor1_22 a h)
+  have e3 := prod_div (a 2 0 + a 0 2) (a 2 0 + a 0 2) (1 + a 2 2 - a 0 0 - a 1 1) r h0 h2 (by rw [hr]; exact minor1_33 a h)
+  linear_combination e0 + e1 + e2 + e3 + hr
+
 
 section ordered
 variable {R : Type} [Field R] [LinearOrder R] [IsStrictOrderedRing R]
